@@ -5,17 +5,28 @@
   applies each request to it, and the real server is replayed against the server model request by request
   under every cache configuration (so "each reply's success or failure and the resulting tree agree with the
   tree model" is the correspondence, over unbounded Lean semantics but sampled histories).
-  PROVED here (all states, all argument byte strings): the cache-transparency core —
-   * a coherent attribute cache never changes what LOOKUP says about existence, type, size, mode, fileid;
-   * the attribute cache is only ever filled with what an Lstat in the same step returned, so every procedure
-     that does not modify the backend keeps it coherent (GETATTR, LOOKUP, ACCESS, READLINK, READ, READDIR,
-     FSSTAT, FSINFO, PATHCONF, MNT);
-   * the invalidations the modifying procedures perform, by key (Lru theorems of C21 + regenerated facts).
-  NOT PROVED (partial): that those invalidations cover everything a modification changes (it needs the
-  well-formedness of the flat map and key canonicity) — this is what the cross-configuration oracle (same
-  history under all 8 cache settings, plus mid-history expiry and a 3-entry cache) and the correspondence check.
+  PROVED here (all states, all argument byte strings, all histories, no bound): the cache-transparency core —
+   * `CInv` (Absnfs/ServerInv.lean): every attribute-cache entry, positive or negative, agrees with what the
+     backend's Lstat says at its path; keys are unique clean paths; the handle table holds clean paths; the
+     backend model is well-formed. It holds for a new server and **every request keeps it** — every program,
+     version, procedure and argument byte string, including the procedures that change the backend (SETATTR,
+     WRITE, CREATE, MKDIR, SYMLINK, REMOVE, RMDIR, RENAME): their invalidations cover everything their backend
+     operation changes (`handle_cinv`, `history_keeps_cinv`). The proof goes through the frame of each
+     backend operation (what Lstat shows changes only at the operation's own path; for Rename only at or below
+     the two names — Absnfs/FsFrame.lean, FsRename.lean), the injectivity of the path encoding on the paths
+     the server builds (Absnfs/PathLemmas.lean), and the byte-prefix test of InvalidatePrefix being the
+     component-prefix relation on such paths.
+   * hence after any history a LOOKUP — whether it hits the cache, hits a negative entry or misses — reports
+     exactly the backend's existence, type, size, mode and fileid (`lookup_after_any_history`): caching is
+     invisible in LOOKUP replies for every TTL, size and negative-cache setting.
+  PARTIAL: the directory-listing cache (DirCache) is not covered by `CInv` — that a cached listing equals the
+  backend's listing after every history is checked by the cross-configuration oracle (same history under all 8
+  cache settings, plus mid-history expiry and a 3-entry cache) and by the correspondence, not proved. The
+  backend is the `Fs` model (errors only where the model has them: a backend that fails Chown after a
+  successful Chmod would leave SetAttr's early return without an invalidation; outside the model).
 -/
 import Absnfs.ServerCoherent
+import Absnfs.ServerInvProcs
 import Props.C21
 import Gen.Facts
 open Absnfs Absnfs.Server
@@ -72,5 +83,61 @@ theorem invalidatePrefix_removes (c : Lru.Cache Attrs) (path : Bytes) :
     the path's attribute entries, the negative entries of the directory's children, the directory's listing -/
 theorem new_object_invalidations (s : St) (dir path : Bytes) :
     invalidateForNew s dir path = dcInv (acInv (acInvNegIn (acInv s dir) dir) path) dir := rfl
+
+/-! ### the invariant, for every request and every history -/
+
+/-- a new server — empty attribute cache, empty handle table, over any well-formed backend tree — satisfies the invariant -/
+theorem new_server_cinv (s : St) (hac : s.ac.entries = []) (hcap : 0 < s.ac.cap) (hhs : s.hs.live = []) (hwf : Fs.WF s.fs) :
+    CInv s where
+  coh := initial_coherent s hac
+  lru := ⟨by simp [Lru.keys, hac], by simp [hac], hcap⟩
+  keys := by intro e he; rw [hac] at he; simp at he
+  hcl := by intro x hx; rw [hhs] at hx; simp at hx
+  wf := hwf
+
+/-- the empty backend is well-formed, and the operations that populate it keep it so -/
+theorem empty_backend_wf (m : Nat) : Fs.WF (Fs.empty m) := Fs.wf_empty m
+theorem mkdir_keeps_wf {fs fs1 : Fs.T} {p : Fs.Path} {perm : Nat} (h : Fs.mkdir fs p perm = .ok fs1) (hw : Fs.WF fs) : Fs.WF fs1 :=
+  (Fs.mkdir_frame h hw).1
+theorem symlink_keeps_wf {fs fs1 : Fs.T} {p : Fs.Path} {t : Bytes} (h : Fs.symlink fs t p = .ok fs1) (hw : Fs.WF fs) : Fs.WF fs1 :=
+  (Fs.symlink_frame h hw).1
+theorem rename_keeps_wf {fs fs1 : Fs.T} {a b : Fs.Path} (h : Fs.rename fs a b = .ok fs1) (hw : Fs.WF fs) : Fs.WF fs1 :=
+  (Fs.rename_frame h hw).1
+theorem remove_keeps_wf {fs fs1 : Fs.T} {p : Fs.Path} (h : Fs.remove fs p = .ok fs1) (hw : Fs.WF fs) : Fs.WF fs1 :=
+  (Fs.remove_frame h hw).1
+
+/-- every request keeps the invariant: the server's own mutations never leave a stale attribute or negative entry -/
+theorem handle_cinv (s : St) (c : Ctx) (prog vers proc : Nat) (args : Bytes) (h : CInv s) :
+    CInv (handle s c prog vers proc args).1 := Server.handle_cinv s c prog vers proc args h
+
+theorem history_keeps_cinv (s : St) (rs : List Req) (h : CInv s) : CInv (runReqs s rs) := runReqs_cinv s rs h
+
+/-- C02, cache transparency of LOOKUP: after any history of requests on a new server, whatever the cache
+    configuration, a lookup of any path answers as the backend would at that moment -/
+theorem lookup_after_any_history (s0 : St) (rs : List Req) (h0 : CInv s0) (now : Nat) (p : Bytes) (s' : St) :
+    (∀ node, lookupPath (runReqs s0 rs) now p = (s', .ok node) →
+        node.path = p ∧ MatchesLstat (runReqs s0 rs).fs p node.attrs) ∧
+    (∀ st, lookupPath (runReqs s0 rs) now p = (s', .error st) →
+        p = [] ∨ ∃ err, Fs.lstat (runReqs s0 rs).fs (fsPath p) = .error err) :=
+  lookup_transparent (history_keeps_cinv s0 rs h0).coh
+
+/-- the modifying procedures one by one (the statement the property names: MKDIR, RENAME, RMDIR staleness) -/
+theorem mkdir_keeps_cinv (s : St) (c : Ctx) (a : Bytes) (h : CInv s) : CInv (procMkdir s c a).1 := procMkdir_cinv s c a h
+theorem rename_keeps_cinv (s : St) (c : Ctx) (a : Bytes) (h : CInv s) : CInv (procRename s c a).1 := procRename_cinv s c a h
+theorem rmdir_keeps_cinv (s : St) (c : Ctx) (a : Bytes) (h : CInv s) : CInv (procRmdir s c a).1 := procRmdir_cinv s c a h
+theorem remove_keeps_cinv (s : St) (c : Ctx) (a : Bytes) (h : CInv s) : CInv (procRemove s c a).1 := procRemove_cinv s c a h
+theorem create_keeps_cinv (s : St) (c : Ctx) (a : Bytes) (h : CInv s) : CInv (procCreate s c a).1 := procCreate_cinv s c a h
+theorem symlink_keeps_cinv (s : St) (c : Ctx) (a : Bytes) (h : CInv s) : CInv (procSymlink s c a).1 := procSymlink_cinv s c a h
+theorem write_keeps_cinv (s : St) (c : Ctx) (a : Bytes) (h : CInv s) : CInv (procWrite s c a).1 := procWrite_cinv s c a h
+theorem setattr_keeps_cinv (s : St) (c : Ctx) (a : Bytes) (h : CInv s) : CInv (procSetattr s c a).1 := procSetattr_cinv s c a h
+
+/-- non-vacuity: the premises of `new_server_cinv` are met by a concrete server state -/
+def demoState : St :=
+  { fs := Fs.empty 1000, hs := Handles.init 0, nodes := [],
+    ac := { entries := [], cap := 10, ttl := 5, negTtl := 5, enableNeg := true, hitAtEq := false },
+    dc := none, excl := [],
+    cfg := { transfer := 65536, readOnly := false, maxFileSize := 0, squash := .none, maxStr := 8192, fhMax := 64,
+             defaultMaxHandles := 100000, evictDivisor := 10, dcMaxDirSize := 10000, maxRecord := 1048576, writeVerf := [] } }
+example : CInv demoState := new_server_cinv demoState rfl (by decide) rfl (Fs.wf_empty 1000)
 
 end Props.C02
